@@ -304,6 +304,11 @@ def gen_dep_case(rng, max_calls=4, allow_fail=True):
         if not inner_block:
             c["res"] = {}
         calls.append(c)
+    if ncalls >= 3 and rng.random() < 0.35:
+        # fan-out: several calls waiting for the same (possibly repeated) input
+        root = rng.randint(1, ncalls - 2)
+        for i in range(root + 1, ncalls + 1):
+            calls[i - 1]["deps"] = [root] * rng.choice([1, 1, 2])
     case = {"calls": calls}
     if inner_block:
         case["mode"] = "dep-block"
